@@ -4,8 +4,13 @@ package actionlint
 
 import (
 	"fmt"
+	"io"
 	"os"
+	"path/filepath"
+	"runtime"
+	"strconv"
 	"strings"
+	"time"
 )
 
 // verifC20NativeRun realises a symbolic tool outcome with a real /bin/sh process.
@@ -51,4 +56,73 @@ func verifC20NativeTool(stdout string, exit int) (*externalCommand, func() (int,
 		os.Remove(out.Name())
 		return strings.Count(string(b), "\036"), string(b)
 	}
+}
+
+// verifC20NativeSchedule: real LintFiles with a stand-in tool that stays alive
+// for a while and counts how many instances are alive at once: 3 files with
+// NumCPU run: steps each. Observed: the bound, every process finished before
+// LintFiles returns, no hang.
+func verifC20NativeSchedule() {
+	tmp, err := os.MkdirTemp("", "verif-c20s-")
+	if err != nil {
+		panic(err)
+	}
+	defer os.RemoveAll(tmp)
+	must := func(err error) {
+		if err != nil {
+			panic(err)
+		}
+	}
+	state := filepath.Join(tmp, "state")
+	must(os.MkdirAll(state, 0o755))
+	must(os.MkdirAll(filepath.Join(tmp, "r", ".github", "workflows"), 0o755))
+	must(os.MkdirAll(filepath.Join(tmp, "r", ".git"), 0o755))
+	tool := filepath.Join(tmp, "tool.sh")
+	script := "#!/bin/sh\ncat >/dev/null\nm=" + state + "/alive.$$\n: > $m\nls " + state + " | grep -c '^alive' >> " + state + "/counts\nsleep 0.3\nrm -f $m\necho x >> " + state + "/finished\necho '[]'\n"
+	must(os.WriteFile(tool, []byte(script), 0o755))
+	cpus := runtime.NumCPU()
+	var args []string
+	for f := 0; f < 3; f++ {
+		p := filepath.Join(tmp, "r", ".github", "workflows", "w"+strconv.Itoa(f)+".yml")
+		must(os.WriteFile(p, []byte(verifC20SchedWorkflow(cpus)), 0o644))
+		args = append(args, p)
+	}
+	l, err := NewLinter(io.Discard, &LinterOptions{Shellcheck: tool})
+	must(err)
+	type res struct {
+		errs []*Error
+		err  error
+	}
+	ch := make(chan res, 1)
+	go func() {
+		errs, err := l.LintFiles(args, nil)
+		ch <- res{errs, err}
+	}()
+	select {
+	case r := <-ch:
+		verifCheck(r.err == nil, "lint-failed")
+		verifCheck(len(r.errs) == 0, "unexpected-diagnostics")
+	case <-time.After(120 * time.Second):
+		verifCheck(false, "deadlock")
+		return
+	}
+	verifReach("linted")
+	verifReach("complete-schedule-exists") // the run that just finished is one
+	ents, _ := os.ReadDir(state)
+	alive := 0
+	for _, e := range ents {
+		if strings.HasPrefix(e.Name(), "alive") {
+			alive++
+		}
+	}
+	fin, _ := os.ReadFile(filepath.Join(state, "finished"))
+	verifCheck(alive == 0 && strings.Count(string(fin), "x") == 3*cpus, "results-returned-before-every-tool-goroutine-finished")
+	cnt, _ := os.ReadFile(filepath.Join(state, "counts"))
+	max := 0
+	for _, ln := range strings.Fields(string(cnt)) {
+		if n, err := strconv.Atoi(ln); err == nil && n > max {
+			max = n
+		}
+	}
+	verifCheckf(max <= cpus, "more-tool-processes-at-once-than-cpus", strconv.Itoa(max))
 }
